@@ -11,11 +11,14 @@ enum { PC_A0 = 0, PC_U0 = 1,
 #include GEOMS_INC
 #undef GEOM
 	PC_N };
-struct PolicyInfo { const char *name; bool aligned, poison; size_t pagesize, slabsize, sb_size; int num_buckets; };
+// A constant given as 0 in the GEOM list is NOT declared by that policy (the pool then uses its default). pagesize.. are
+// the values in effect — for undeclared ones the documented defaults of slab.hpp, which the harness uses only as workload
+// hints (size generation, placement residues) and for the page-size cap of the alignment clause; d_* are the declared values.
+struct PolicyInfo { const char *name; bool aligned, poison; size_t pagesize, slabsize, sb_size; int num_buckets; size_t d_page, d_slab, d_sb; int d_nb; };
 static const PolicyInfo policy_info[PC_N] = {
-	{"A0", true, false, 0x1000, 0x40000, 0x40000, 13},
-	{"U0", false, true, 0x1000, 0x40000, 0x40000, 13},
-#define GEOM(tag, al, po, pg, sl, sb, nb) {#tag, al != 0, po != 0, pg, sl, sb, nb},
+	{"A0", true, false, 0x1000, 0x40000, 0x40000, 13, 0, 0, 0, 0},
+	{"U0", false, true, 0x1000, 0x40000, 0x40000, 13, 0, 0, 0, 0},
+#define GEOM(tag, al, po, pg, sl, sb, nb) {#tag, al != 0, po != 0, pg ? pg : 0x1000, sl ? sl : 0x40000, sb ? sb : 0x40000, nb ? nb : 13, pg, sl, sb, nb},
 #include GEOMS_INC
 #undef GEOM
 };
